@@ -211,7 +211,7 @@ func (w *World) Prefix(p string) {
 func (w *World) CgoPreamble(s string) {
 	w.F.CgoPreamble(s)
 	w.Preamble = append(w.Preamble, s)
-	w.Log = append(w.Log, fmt.Sprintf("CgoPreamble(%q)", s))
+	w.Log = append(w.Log, fmt.Sprintf("CgoPreamble(%q)", jh.Short(s, 80)))
 }
 
 // Spec is one import spec of the output.
@@ -508,7 +508,11 @@ func CheckCgo(a *Analysis, w *World) []string {
 			got = append(got, CommentLines(d)...)
 		}
 		if strings.Join(got, "\x00") != strings.Join(want, "\x00") {
-			out = append(out, fmt.Sprintf("doc comment of import \"C\" is %q, want the preamble blocks %q in order", c.Doc, w.Preamble))
+			var short []string
+			for _, p := range w.Preamble {
+				short = append(short, jh.Short(p, 120))
+			}
+			out = append(out, fmt.Sprintf("doc comment of import \"C\" is %q (%d bytes), want the preamble blocks %q in order", jh.Short(c.Doc, 300), len(c.Doc), short))
 		} else if c.DocEndLine+1 != c.Line {
 			out = append(out, fmt.Sprintf("blank line between the preamble (ends line %d) and import \"C\" (line %d)", c.DocEndLine, c.Line))
 		}
